@@ -288,6 +288,8 @@ def run(repo: Repo, tier: str) -> Report:
            f"DataArray({kw}); coords = {cdefs}", das[0] if das else "xarray.DataArray(...)")
     from ..rules import r_truthy
     r_truthy(rep, repo, "PixelAlgorithms", "autocorr", ["nodata"], "0 is a legitimate nodata value (it is the one the test-suite uses); a truth test silently replaces or drops it")
+    from ..rules import r_stateless
+    r_stateless(rep, repo, [('PixelAlgorithms', 'autocorr')])
     rep.floor("C15 obligations", len(rep.obls), 40)
     return rep
 
